@@ -54,7 +54,8 @@ def scan(state, groups, tid):
     sel = idx[np.linspace(0, len(idx) - 1, min(60, len(idx))).astype(int)]
     i0 = idx[0]
     for i in sel:
-        ev.append({"k": "Pt", "tid": tid, "reg": "all", "fin": True, "smooth": False, "x": E.sl(abs(float(s.x[i])) + 1e-300), "v": {}, "bal": {},
+        ev.append({"k": "Pt", "tid": tid, "reg": "far-downstream" if i == idx[-1] else "all", "fin": True, "smooth": False,
+                   "x": E.sl(abs(float(s.x[i])) + 1e-300), "v": {}, "bal": {},
                    "eq": {"mass-flux": E.e8([mass[i], -mass[i0]]), "momentum-flux": E.e8([mom[i], -mom[i0]]), "energy-flux": E.e8([ener[i], -ener[i0]])},
                    "ineq": {}})
         stats["points"] += 1
